@@ -225,6 +225,10 @@ def run_c17(tier, seed, replay):
             run = {"id": rid, "kinds": ["c17"], "net": m, "fmt": fmt, "model_text": fm[fmt], "texts": texts, "scenario": scenario,
                    "lines": formula_file(rng, texts), "opt": rng.choice(["no-print", "summary", "summary", "with-progress", "exhaustive", "exhaustive"]),
                    "ext": ext, "labels": provided, "out": rng.random() < 0.6, "k": k}
+            # history: some output paths already hold an older, larger archive (an earlier run with more results)
+            if len(runs) % 3 == 0 and scenario != "ok":
+                run["out"] = True                 # failing runs over an existing archive as well
+            run["pre_out"] = bool(run["out"] and len(runs) % 3 == 0)
             if ext:
                 arch_jobs.append({"id": rid, "model": fm[fmt], "format": fmt, "k": k, "sets": label_specs(rng, provided, inside=True), "formulae": []})
             runs.append(run)
@@ -272,13 +276,25 @@ def run_c17(tier, seed, replay):
         outzip = os.path.join(rd, "out", "results.zip")
         if run["out"]:
             args += ["-o", outzip]
+            if run.get("pre_out"):
+                import zipfile
+                os.makedirs(os.path.dirname(outzip), exist_ok=True)
+                with zipfile.ZipFile(outzip, "w", zipfile.ZIP_STORED) as z:
+                    z.writestr("model.aeon", "old_a -> old_b\n" * 50)
+                    z.writestr("formulae.txt", "\n".join("EF old_%d" % i for i in range(60)))
+                    for i in range(40):
+                        z.writestr("formula-%d.bdd" % (i + 50), "|0,0,0|1,1,1|" + "7,0,1|" * 400)
         if run["ext"]:
             cp = os.path.join(wd, "ctx", run["id"] + ".zip")
             if sc == "bad_ctx":
                 cp = os.path.join(rd, "notazip.zip")
                 open(cp, "w").write("plain text")
             args += ["-e", cp]
+        import hashlib
+        digest = lambda pth: hashlib.sha256(open(pth, "rb").read()).hexdigest() if os.path.exists(pth) else None
+        before = digest(outzip)
         pr = subprocess.run(args, capture_output=True, text=True, timeout=600)
+        after = digest(outzip)
         sem_doc = json.load(open(os.path.join(wd, "sem", "n_" + run["id"] + ".json")))
         call = sem_doc["cases"][0]["calls"][0]
         lib = call.get("res", []) if call["outcome"] == "ok" else []
@@ -290,7 +306,9 @@ def run_c17(tier, seed, replay):
               "lib": lib, "lib_outcome": call["outcome"], "k": run["k"], "net_in": sem_doc["net"],
               "events": parse_stdout(pr.stdout, net_vars), "exit": pr.returncode,
               "panicked": "panicked" in pr.stderr or "panicked" in pr.stdout,
-              "said_something": bool(pr.stdout.strip()), "stderr": pr.stderr[-300:], "arch_ok": False, "arch": {}}
+              "said_something": bool(pr.stdout.strip()), "stderr": pr.stderr[-300:], "arch_ok": False, "arch": {},
+              # history of the output path: an older archive was there before the run; is it untouched afterwards
+              "pre_out": bool(run.get("pre_out")), "old_kept": before is not None and before == after}
         pos += len(run["lines"])
         if run["out"] and os.path.exists(outzip):
             try:
@@ -331,7 +349,7 @@ def run_c17(tier, seed, replay):
     samples = [{"args": e["args"], "scenario": e["scenario"], "formula_file": e["raw_lines"], "stdout_events": e["events"][:12], "exit": e["exit"]} for e in events[:3]]
     return runner.report("C17", tier, seed, t0, [{"id": e["id"], "kinds": ["c17"], "text": " ".join(e["args"])} for e in events], verdicts, ["c17"], stats,
                          {"samples": samples, "scenarios": {"%s/%s" % k: v for k, v in hist.items()},
-                          "mode_A_cli": {"module": "spec/MC_Cli.tla", "states": da, "invariants": "InOrder, FailQuiet, Complete; liveness Terminates"},
+                          "mode_A_cli": {"module": "spec/MC_Cli.tla", "states": da, "invariants": "InOrder, FailQuiet, FailKeepsOld, Replaced, Complete; liveness Terminates"},
                           "rule": "seeded runs of the hctl-model-checker binary built from the working tree: model as aeon / bnet / sbml, formula files with comment / blank / indented lines, every print option, optional -o and -e archives, and failure scenarios; stdout lines consumed path-wise by TLC against the state machine of spec/Cli.tla (spec/Trace_Cli.tla); a run without an accepting state is rejected"},
                          ASSUME_CLI, lambda it, failed: {"property": "C17", "failed_judgements": failed, "recorded": byid[it["id"]],
                                                          "runs": [r for r in runs if r["id"] == it["id"]],
